@@ -2,6 +2,7 @@
 from ..agree import rule_A3, rule_Q1_Q2
 from ..pathrules import rule_T8ii
 from ..persist import rule_P4_bound, rule_P1_P2, persist_classes
+from ..shape import rule_N2
 
 LEVEL_TEXT = ('Weak structural claim only: the pool path merges exactly the counters the serial '
               'path advances; counters describe the rows actually cached; acceptance depends on '
@@ -14,6 +15,7 @@ def run(ctx):
     rule_T8ii(ctx, 'Union.sample')
     rule_T8ii(ctx, 'NautilusBound.sample')
     rule_Q1_Q2(ctx)
+    rule_N2(ctx)
     prog = ctx.program
     for cname in ('Union', 'NautilusBound'):
         rule_P4_bound(ctx, prog.cls(cname))
